@@ -90,3 +90,21 @@ Theorem C01_code_intensity :
   if j <? length (s_f2 s) then (scale * nth j (s_f2 s) 0 / s_shell s + bg)%R else 0%R.
 Proof. intros. rewrite code_intensity_is_model. apply intensity_formula; assumption. Qed.
 Print Assumptions C01_code_intensity.
+
+(* "asking for more simultaneously dispersed parameters than the model supports is refused with an error instead of
+   being truncated": make_details refuses exactly when more than max_pd distributions have more than one point, and
+   when it accepts, EVERY such distribution has a loop slot carrying its own length - for every table of lengths *)
+From SM Require Import C01.Details Gen.C01_details C01.Translated.
+Theorem C01_refused_iff_too_many : forall max_pd lens, make_details max_pd lens = TooMany <-> max_pd < num_active lens.
+Proof. exact make_details_refuses. Qed.
+Print Assumptions C01_refused_iff_too_many.
+Theorem C01_never_truncated : forall max_pd lens ks ns, make_details max_pd lens = Slots ks ns ->
+  forall i, i < length lens -> 1 < nth i lens 0 -> In (i, nth i lens 0) (combine ks ns).
+Proof. exact make_details_selects_all_active. Qed.
+Print Assumptions C01_never_truncated.
+(* ... and that is what the CODE does: details.make_details translated from the current text *)
+Theorem C01_code_make_details : details_translated = true -> forall max_pd lens,
+  (if code_refuses max_pd lens then TooMany
+   else Slots (map fst (code_selection max_pd lens)) (map snd (code_selection max_pd lens))) = make_details max_pd lens.
+Proof. exact code_make_details_is_model. Qed.
+Print Assumptions C01_code_make_details.
